@@ -63,8 +63,8 @@ flat_collider = nb.flat_collider
 
 def gen_cases(rng, tier):
     cases = []
-    n = dict(quick=dict(general=60, aspect=70, ident=30, nested=20, touch=60, flat=50, lattice=40, bigmesh=50, latbox=160),
-             thorough=dict(general=900, aspect=900, ident=300, nested=250, touch=700, flat=600, lattice=500, bigmesh=600, latbox=1500))[tier]
+    n = dict(quick=dict(general=60, aspect=70, ident=30, nested=20, touch=60, flat=50, lattice=40, bigmesh=50, latbox=160, sympoly=60),
+             thorough=dict(general=900, aspect=900, ident=300, nested=250, touch=700, flat=600, lattice=500, bigmesh=600, latbox=1500, sympoly=700))[tier]
     for _ in range(n["general"]):
         s1, s2, meta = nw.gen_pair(rng, tier)
         cases.append(dict(c1=s1, c2=s2, meta=meta))
@@ -122,6 +122,9 @@ def gen_cases(rng, tier):
             cases.append(dict(c1=r[0], c2=r[1], meta=r[2]))
     for i in range(n["latbox"]):
         a, b, meta = nb.lattice_box_pair(rng, overlap=rng.choice([True, True, True, None]))
+        cases.append(dict(c1=a, c2=b, meta=meta))
+    for i in range(n["sympoly"]):
+        a, b, meta = nb.symmetric_polytope_pair(rng)
         cases.append(dict(c1=a, c2=b, meta=meta))
     for c in cases:
         c["ops"] = ops_for(c["c1"], c["c2"], c.get("same_object", False))
@@ -238,7 +241,9 @@ def run(tier, seed, replay=None):
         "identical (equal copy / the same Python object twice), nested, touching at gaps in {0,+-1e-12,+-1e-9,+-1e-6,+-1e-4}, "
         "zero-volume (vertex, segment, triangle, planar hull, disk, ellipse), exact lattice placements, big meshes (radius 10..100) "
         "with a small collider in front of a face (search direction = face normal: mesh hill climbing, F-M1), axis-aligned boxes / cube "
-        "meshes / cube hulls with sizes and offsets on a 0.25 grid (collinear and coplanar Minkowski-difference vertices). distinct by canonical "
+        "meshes / cube hulls with sizes and offsets on a 0.25 grid (collinear and coplanar Minkowski-difference vertices), overlapping boxes / "
+        "cubes in symmetric relative poses (concentric or 0.25-grid offsets, rotated by 30..180 degrees about axes and diagonals: many faces "
+        "of EPA's polytope visible at once, in every order of the face array). distinct by canonical "
         "hash; non-trivial = at least one entry point needed more than 2 loop passes (support evaluations > 4)")
     R.assumptions += [
         "support evaluations are counted by wrapping collider.support_function; the specialised Nesterov supports bypass it, there the returned iteration count is bounded instead (<= max_interations)",
